@@ -29,7 +29,7 @@ def c15(chk, opts):
             raise ToolError("sendsync does not build:\n" + out[-3000:])
     trace = chk.path("c15.ndjson")
     hx(["c15", "--seed", chk.seed, "--pool", 40, "--schedules", sf, "--random", 400 if thorough else 80,
-        "--threads", 16, "--rounds", 12 if thorough else 3, "--out", trace], timeout=3000)
+        "--threads", 16, "--rounds", 12 if thorough else 3, "--big-rounds", 8 if thorough else 3, "--out", trace], timeout=3000)
     if send_ok:
         rc, out = run([binpath("release", "sendsync")], timeout=60)
         with open(trace, "a") as f:
@@ -49,6 +49,10 @@ def c15(chk, opts):
             sig = {"op": "inter", "sched": ev["sched"], "flops": [c["flop"] for c in cfgs]}
             chk.violation("interleaved iteration differs from the solo runs: schedule %s over evaluators with flops %s" % (ev["sched"][:40], sig["flops"]),
                           sig, {"gen": ["c15"], "event": ev, "solos": [{k: c[k] for k in ("flop", "ranges", "from", "to", "items")} for c in cfgs]})
+        elif ev["op"] == "bigthread":
+            c = json.loads(events[ev["id"] - 1])
+            chk.violation("a long run (%d showdowns) drained on one of 16 concurrent threads differs from the same evaluator drained alone (flop %s): digest %s vs %s" %
+                          (c["digest"][2], c["flop"], ev["digest"], c["digest"]), {"op": "bigthread", "flop": c["flop"]}, {"gen": ["c15"], "event": ev, "solo": {k: c[k] for k in ("flop", "from", "to", "digest")}})
         elif ev["op"] == "thread":
             c = json.loads(events[ev["id"] - 1])
             chk.violation("an evaluator drained on a concurrent thread differs from its solo run (flop %s)" % c["flop"],
